@@ -118,22 +118,22 @@ _READ_SYSCALLS = {0, 45, 47, 17, 19}  # x86_64: read, recvfrom, recvmsg, pread64
 _HAVE_PROC = platform.machine() == "x86_64" and os.path.exists("/proc/self/task")
 
 
-def _in_read_on(tid: int | None, fd: int) -> bool:
+def _in_read_on(tid: int | None, fd: int, pid: Any = "self") -> bool:
     if tid is None:
         return False
     try:
-        with open(f"/proc/self/task/{tid}/syscall") as fh:
+        with open(f"/proc/{pid}/task/{tid}/syscall") as fh:
             parts = fh.read().split()
         return len(parts) >= 2 and parts[0].isdigit() and int(parts[0]) in _READ_SYSCALLS and int(parts[1], 16) == fd
     except (OSError, ValueError):
         return False
 
 
-def _switches(tid: int | None) -> int:
+def _switches(tid: int | None, pid: Any = "self") -> int:
     if tid is None:
         return -1
     try:
-        with open(f"/proc/self/task/{tid}/status") as fh:
+        with open(f"/proc/{pid}/task/{tid}/status") as fh:
             return sum(int(l.split()[1]) for l in fh if "ctxt_switches" in l)
     except (OSError, ValueError):
         return -1
@@ -222,29 +222,33 @@ class Link:
         }
         self.cfd = self.ct.reader.fileno()
         self.sfd = self.st.reader.fileno() if self.st is not None else -1
+        self.wfd = self.ct.writer.fileno()
 
     # ---- quiescence
     def _server_quiet(self) -> bool:
+        """The serving side is gone, or sits in a read on its (empty) request descriptor."""
         if self.thread is None:
-            return False
+            if self.proc.poll() is not None:
+                return True
+            return _in_read_on(self.proc.pid, 0, self.proc.pid) and _pending(self.wfd) == 0
         if not self.thread.is_alive():
             return True
         return _in_read_on(self.srv_tid, self.sfd) and _pending(self.sfd) == 0
 
+    def _server_switches(self) -> int:
+        return _switches(self.proc.pid, self.proc.pid) if self.thread is None else _switches(self.srv_tid)
+
     def _wait_server_quiet(self, deadline: float) -> bool:
-        if self.thread is None:
-            time.sleep(0.05)
-            return True
         while time.time() < deadline:
             if self._server_quiet():
-                a = _switches(self.srv_tid)
+                a = self._server_switches()
                 time.sleep(0.002)
-                if self._server_quiet() and _switches(self.srv_tid) == a:
+                if self._server_quiet() and self._server_switches() == a:
                     return True
             time.sleep(0.001)
         return False
 
-    def run(self, via: str, script: list[Any], timeout: float = 60.0, fallback_block: float = 2.0, close_after_exception: bool = True) -> list[list[Any]]:
+    def run(self, via: str, script: list[Any], timeout: float = 60.0, fallback_block: float = 5.0, close_after_exception: bool = True) -> list[list[Any]]:
         """Run one interp script through proxy ``via``; the (cut) client trace.  A hang is ``["blocked"]``.
 
         ``close_after_exception``: when the on_log callback's exception leaves tick()/exchange() the session is closed,
@@ -288,22 +292,19 @@ class Link:
             if now > deadline:
                 blocked = True
                 break
-            if self.thread is None or not _HAVE_PROC:
-                # subprocess (or no /proc): the server cannot be inspected -- wall clock fallback
-                if self.proc is not None and self.proc.poll() is not None and now - t0 > 0.5:
-                    pass
-                if now - t0 > fallback_block and tid and (not _HAVE_PROC or (_in_read_on(tid[0], self.cfd) and _pending(self.cfd) == 0)):
-                    c0 = _switches(tid[0])
-                    time.sleep(0.3)
-                    if t.is_alive() and _switches(tid[0]) == c0:
-                        blocked = True
-                        break
+            if not _HAVE_PROC:
+                if now - t0 > fallback_block:       # no /proc: wall clock only
+                    blocked = True
+                    break
                 continue
             if tid and _in_read_on(tid[0], self.cfd) and _pending(self.cfd) == 0 and self._server_quiet():
-                c0, s0 = _switches(tid[0]), _switches(self.srv_tid)
+                if self.thread is None and self.proc.poll() is not None:
+                    continue                        # the worker exited: the read is about to see EOF
+                c0, s0 = _switches(tid[0]), self._server_switches()
                 time.sleep(0.01)
                 if (t.is_alive() and _in_read_on(tid[0], self.cfd) and _pending(self.cfd) == 0 and self._server_quiet()
-                        and _switches(tid[0]) == c0 and _switches(self.srv_tid) == s0):
+                        and not (self.thread is None and self.proc.poll() is not None)
+                        and _switches(tid[0]) == c0 and self._server_switches() == s0):
                     blocked = True
                     break
         self._script_thread = t
@@ -366,6 +367,11 @@ class Link:
     # ---- teardown
     def close(self) -> None:
         if self.thread is None:
+            t = getattr(self, "_script_thread", None)
+            if t is not None and t.is_alive():
+                with contextlib.suppress(Exception):
+                    self.proc.kill()            # ends the pipes below the client's buffered reader: its read sees EOF
+                t.join(5.0)
             with contextlib.suppress(Exception):
                 self.ct.close()
             return
